@@ -930,7 +930,43 @@ func ruleSeenToken(p *Program, r *Reporter) {
 		return cal == pr.advance || cal == pr.expect
 	}
 	// examines: the call looks at the current token
-	examines := func(ins ssa.Instruction) bool {
+	examDepth := 0
+	var examines func(ins ssa.Instruction) bool
+	// startsByExamining: on every path from g's entry the current token is
+	// looked at before the parser advances or g returns
+	startsByExamining := func(g *ssa.Function) bool {
+		if len(g.Blocks) == 0 {
+			return false
+		}
+		okAll := true
+		seen := map[*ssa.BasicBlock]bool{}
+		var w func(b *ssa.BasicBlock)
+		w = func(b *ssa.BasicBlock) {
+			if !okAll || seen[b] {
+				return
+			}
+			seen[b] = true
+			for _, in := range b.Instrs {
+				if examines(in) {
+					return
+				}
+				if c2, ok := in.(*ssa.Call); ok && moves(c2) {
+					okAll = false
+					return
+				}
+				if _, ok := in.(*ssa.Return); ok {
+					okAll = false
+					return
+				}
+			}
+			for _, sc := range b.Succs {
+				w(sc)
+			}
+		}
+		w(g.Blocks[0])
+		return okAll
+	}
+	examines = func(ins ssa.Instruction) bool {
 		switch x := ins.(type) {
 		case *ssa.Call:
 			cal := x.Call.StaticCallee()
@@ -947,8 +983,18 @@ func ruleSeenToken(p *Program, r *Reporter) {
 				return false
 			}
 			if fnPkg(cal) != nil && fnPkg(cal).Pkg.Path() == Mod+"/parser" && recvNamed(cal, "parser", "Parser") {
-				// a sub-parser (or curPrecedence) starts from the current token
-				return pr.parseFns[cal] || cal == pr.curPrec
+				// a sub-parser (or curPrecedence) starts from the current token;
+				// so does any other method of the parser that looks at the
+				// current token before it does anything else with the input
+				if pr.parseFns[cal] || cal == pr.curPrec {
+					return true
+				}
+				if examDepth < 3 {
+					examDepth++
+					ok := startsByExamining(cal)
+					examDepth--
+					return ok
+				}
 			}
 		case *ssa.FieldAddr:
 			// p.curToken.Type / .Literal read directly
@@ -1156,6 +1202,22 @@ func init() {
 		Text: "Every return of the lexer's NextToken has consumed at least one character since the call began: directly, through a reader that always advances, through a reader whose loop is entered because the very predicate that selected it holds for the current character, or because the text a reader returned is non-empty. A token that consumes nothing would be produced for ever."})
 }
 
+// paramGuardHolds: cal is a reader whose loop tests one of its parameters on
+// the current character, the call passes a named predicate for it, and that
+// predicate is known to hold for the current character here.
+func paramGuardHolds(guardedParam map[*ssa.Function]int, cal *ssa.Function, cc *ssa.CallCommon, guards map[*ssa.Function]bool) bool {
+	idx, ok := guardedParam[cal]
+	if !ok || idx >= len(cc.Args) {
+		return false
+	}
+	v := cc.Args[idx]
+	if ct, ok := v.(*ssa.ChangeType); ok {
+		v = ct.X
+	}
+	q, ok := v.(*ssa.Function)
+	return ok && guards[q]
+}
+
 func ruleTokenProgress(p *Program, r *Reporter) {
 	a := needAnchors(p, r)
 	if a == nil {
@@ -1235,6 +1297,8 @@ func ruleTokenProgress(p *Program, r *Reporter) {
 	}
 	// guarded[F] = Q: F advances at least once when Q(l.ch) holds on entry
 	guarded := map[*ssa.Function]*ssa.Function{}
+	guardedParam := map[*ssa.Function]int{} // the reader's own loop tests parameter #i on l.ch
+	pendingParam := -1
 	var guardOf func(fn *ssa.Function, depth int) *ssa.Function
 	guardOf = func(fn *ssa.Function, depth int) *ssa.Function {
 		if depth > 4 || len(fn.Blocks) == 0 {
@@ -1248,6 +1312,16 @@ func ruleTokenProgress(p *Program, r *Reporter) {
 				}
 				if cc := callOf(ins); cc != nil && cc.StaticCallee() != nil && isLex[cc.StaticCallee()] && cc.StaticCallee().Signature.Recv() != nil {
 					// first lexer-method call on the straight-line prefix
+					if idx, ok := guardedParam[cc.StaticCallee()]; ok && idx < len(cc.Args) {
+						// a reader that tests the predicate it is handed: the one
+						// handed here
+						v := cc.Args[idx]
+						if ct, ok := v.(*ssa.ChangeType); ok {
+							v = ct.X
+						}
+						q, _ := v.(*ssa.Function)
+						return q
+					}
 					return guardOf(cc.StaticCallee(), depth+1)
 				}
 			}
@@ -1255,7 +1329,22 @@ func ruleTokenProgress(p *Program, r *Reporter) {
 			if ok {
 				q := chTest(iff.Cond)
 				if q == nil {
-					return nil
+					// the predicate may be a parameter of the reader: Q is then what
+					// each caller passes
+					if c, isCall := iff.Cond.(*ssa.Call); isCall && len(c.Call.Args) == 1 {
+						if prm, isPrm := c.Call.Value.(*ssa.Parameter); isPrm {
+							if ld, ok := c.Call.Args[0].(*ssa.UnOp); ok && ld.Op == token.MUL && fieldKey(ld.X) == "lexer.Lexer.ch" {
+								for i, pr := range fn.Params {
+									if pr == prm {
+										pendingParam = i
+									}
+								}
+							}
+						}
+					}
+					if pendingParam < 0 {
+						return nil
+					}
 				}
 				// the true successor must advance before it comes back or returns
 				seen := map[*ssa.BasicBlock]bool{b: true}
@@ -1285,8 +1374,13 @@ func ruleTokenProgress(p *Program, r *Reporter) {
 				}
 				seen = map[*ssa.BasicBlock]bool{}
 				if w(b.Succs[0]) {
+					pendingParam = -1
 					return nil
 				}
+				if q == nil && pendingParam >= 0 && depth == 0 {
+					guardedParam[fn] = pendingParam
+				}
+				pendingParam = -1
 				return q
 			}
 			if len(b.Succs) != 1 {
@@ -1296,9 +1390,11 @@ func ruleTokenProgress(p *Program, r *Reporter) {
 		}
 		return nil
 	}
-	for _, f := range fns {
-		if q := guardOf(f, 0); q != nil && !always[f] {
-			guarded[f] = q
+	for pass := 0; pass < 2; pass++ { // readers with a predicate parameter first, then their callers
+		for _, f := range fns {
+			if q := guardOf(f, 0); q != nil && !always[f] {
+				guarded[f] = q
+			}
 		}
 	}
 	// accumulates[F]: F returns a string that is "" or grown only in blocks that advance
@@ -1416,6 +1512,9 @@ func ruleTokenProgress(p *Program, r *Reporter) {
 				out.adv = true
 				out.guards = map[*ssa.Function]bool{}
 			case guarded[cal] != nil && out.guards[guarded[cal]]:
+				out.adv = true
+				out.guards = map[*ssa.Function]bool{}
+			case paramGuardHolds(guardedParam, cal, cc, out.guards):
 				out.adv = true
 				out.guards = map[*ssa.Function]bool{}
 			case isLex[cal] && cal.Signature.Recv() != nil && !purePeek(cal):
@@ -1755,17 +1854,36 @@ func ruleFoldArity(p *Program, r *Reporter) {
 	}
 	// the fold pass: the walker callback that appends to a captured list in its OpPush case
 	var fold *ssa.Function
+	// the pending list lives in a captured variable (callback written as a
+	// function literal) or in a field of the callback's receiver (written as a
+	// method)
+	isListAddr := func(fn *ssa.Function, v ssa.Value) bool {
+		if _, isFree := v.(*ssa.FreeVar); isFree {
+			return true
+		}
+		if fa, ok := v.(*ssa.FieldAddr); ok && fn.Signature.Recv() != nil && len(fn.Params) > 0 && fa.X == ssa.Value(fn.Params[0]) {
+			_, isSlice := deref(fa.Type()).Underlying().(*types.Slice)
+			return isSlice
+		}
+		return false
+	}
+	sameAddr := func(a, b ssa.Value) bool {
+		if a == b {
+			return true
+		}
+		fa, ok1 := a.(*ssa.FieldAddr)
+		fb, ok2 := b.(*ssa.FieldAddr)
+		return ok1 && ok2 && fa.X == fb.X && fa.Field == fb.Field
+	}
 	for _, fn := range p.LibFns {
-		if fn.Parent() == nil || !isWalkerCallback(fn) || fnPkg(fn).Pkg.Path() != Mod+"/vm" {
+		if !isWalkerCallback(fn) || fnPkg(fn).Pkg.Path() != Mod+"/vm" {
 			continue
 		}
 		for _, b := range fn.Blocks {
 			for _, ins := range b.Instrs {
-				if st, ok := ins.(*ssa.Store); ok {
-					if _, isFree := st.Addr.(*ssa.FreeVar); isFree {
-						if _, isApp := isBuiltinCall(st.Val, "append"); isApp && strings.Contains(outerCase(p, fn, st.Pos()), "OpPush") {
-							fold = fn
-						}
+				if st, ok := ins.(*ssa.Store); ok && isListAddr(fn, st.Addr) {
+					if _, isApp := isBuiltinCall(st.Val, "append"); isApp && strings.Contains(outerCase(p, fn, st.Pos()), "OpPush") {
+						fold = fn
 					}
 				}
 			}
@@ -1776,14 +1894,12 @@ func ruleFoldArity(p *Program, r *Reporter) {
 		return
 	}
 	// the pending list: the captured variable appended to
-	var list *ssa.FreeVar
+	var list ssa.Value
 	for _, b := range fold.Blocks {
 		for _, ins := range b.Instrs {
-			if st, ok := ins.(*ssa.Store); ok {
-				if fv, isFree := st.Addr.(*ssa.FreeVar); isFree {
-					if _, isApp := isBuiltinCall(st.Val, "append"); isApp {
-						list = fv
-					}
+			if st, ok := ins.(*ssa.Store); ok && isListAddr(fold, st.Addr) {
+				if _, isApp := isBuiltinCall(st.Val, "append"); isApp {
+					list = st.Addr
 				}
 			}
 		}
@@ -1864,7 +1980,7 @@ func ruleFoldArity(p *Program, r *Reporter) {
 				if !isLen {
 					continue
 				}
-				if l2, ok := lc.Call.Args[0].(*ssa.UnOp); !ok || l2.X != ssa.Value(list) {
+				if l2, ok := lc.Call.Args[0].(*ssa.UnOp); !ok || !sameAddr(l2.X, list) {
 					continue
 				}
 				k, kok := constInt(bo.Y)
@@ -2013,39 +2129,48 @@ func ruleOneDefault(p *Program, r *Reporter) {
 		r.Undecided(key, "-", "no parser function marks an arm as the default")
 		return
 	}
-	// design A: counted after the loop
-	for _, b := range fn.Blocks {
-		iff, ok := terminator(b).(*ssa.If)
-		if !ok {
-			continue
+	// design A: counted after the loop — in the function that marks the arms, or
+	// in the function that calls it and hands the switch back
+	cands := []*ssa.Function{fn}
+	for _, g := range parserFns(p) {
+		if len(callsTo(g, fn)) > 0 && g != fn {
+			cands = append(cands, g)
 		}
-		bo, ok := iff.Cond.(*ssa.BinOp)
-		if !ok {
-			continue
-		}
-		k, kok := constInt(bo.Y)
-		if !kok || !((bo.Op == token.GTR && k == 1) || (bo.Op == token.GEQ && k == 2)) {
-			continue
-		}
-		ph, ok := bo.X.(*ssa.Phi)
-		if !ok || !countsField(ph, armType, fieldIdx) {
-			continue
-		}
-		if !allReturnsNil(b.Succs[0]) {
-			continue
-		}
-		// the test is on every path to a successful return
-		dom := true
-		for _, rb := range fn.Blocks {
-			if ret, ok := terminator(rb).(*ssa.Return); ok && len(ret.Results) == 1 && !isNilConst(ret.Results[0]) {
-				if !(b == rb || b.Dominates(rb)) {
-					dom = false
+	}
+	for _, fn := range cands {
+		for _, b := range fn.Blocks {
+			iff, ok := terminator(b).(*ssa.If)
+			if !ok {
+				continue
+			}
+			bo, ok := iff.Cond.(*ssa.BinOp)
+			if !ok {
+				continue
+			}
+			k, kok := constInt(bo.Y)
+			if !kok || !((bo.Op == token.GTR && k == 1) || (bo.Op == token.GEQ && k == 2)) {
+				continue
+			}
+			ph, ok := bo.X.(*ssa.Phi)
+			if !ok || !countsField(ph, armType, fieldIdx) {
+				continue
+			}
+			if !allReturnsNil(b.Succs[0]) {
+				continue
+			}
+			// the test is on every path to a successful return
+			dom := true
+			for _, rb := range fn.Blocks {
+				if ret, ok := terminator(rb).(*ssa.Return); ok && len(ret.Results) == 1 && !isNilConst(ret.Results[0]) {
+					if !(b == rb || b.Dominates(rb)) {
+						dom = false
+					}
 				}
 			}
-		}
-		if dom {
-			r.OkNT(key, p.Pos(iff.Cond.Pos()), "default arms are counted after the loop; more than one is an error on every path to a successful return")
-			return
+			if dom {
+				r.OkNT(key, p.Pos(iff.Cond.Pos()), "default arms are counted after the loop; more than one is an error on every path to a successful return")
+				return
+			}
 		}
 	}
 	// design B: explore the paths with the boolean flags the function keeps
